@@ -262,6 +262,33 @@ func c17BoolResults(r *Run, fn *ssa.Function, reach *Reach) []string {
 	return keysOf(set)
 }
 
+// c17RaceEndsOnDuplicate: in a race's per-log goroutine, finding the log already requested
+// (request() = false) leads to the goroutine's end without waiting for that log's answer.
+func c17RaceEndsOnDuplicate(r *Run) bool {
+	for _, fn := range r.P.ModFuncs {
+		if !strings.HasPrefix(FuncName(fn), "submission.groupRace$") {
+			continue
+		}
+		reqs := CallsTo(fn, "(*submission.safeSubmissionState).request")
+		subs := CallsTo(fn, "iface(submission.Submitter).SubmitToLog")
+		if len(reqs) != 1 || len(subs) == 0 {
+			continue
+		}
+		reach := r.D.Walk(fn, Sigma{r.D.D(reqs[0].Value()): "F"}, reqs[0].Block(), nil)
+		r.Valuations++
+		submitted := false
+		for _, s := range subs {
+			if reach.Has(s) {
+				submitted = true
+			}
+		}
+		if !submitted && len(reachableReturns(fn, reach)) > 0 {
+			return true
+		}
+	}
+	return false
+}
+
 func c17Completeness(r *Run) {
 	if fn := r.Fn("submission.GetSCTs"); fn != nil {
 		ce := CallsTo(fn, "submission.completenessError")
@@ -279,13 +306,34 @@ func c17Completeness(r *Run) {
 				sel = s
 			}
 		})
-		preset, recorded := 0, 0
+		preset, recorded, final := 0, 0, 0
+		reaches := func(from, to *ssa.BasicBlock) bool {
+			seen := map[*ssa.BasicBlock]bool{}
+			work := append([]*ssa.BasicBlock{}, from.Succs...)
+			for len(work) > 0 {
+				b := work[len(work)-1]
+				work = work[:len(work)-1]
+				if seen[b] {
+					continue
+				}
+				seen[b] = true
+				if b == to {
+					return true
+				}
+				work = append(work, b.Succs...)
+			}
+			return false
+		}
 		eachInstr(fn, func(in ssa.Instruction) {
 			mu, ok := in.(*ssa.MapUpdate)
 			if !ok || gc == nil || mu.Map != gc {
 				return
 			}
 			switch {
+			case glob("(*submission.safeSubmissionState).groupComplete(*, rangeval(p4).Name)", r.D.D(mu.Value)) && glob("rangeval(p4).Name", r.D.D(mu.Key)):
+				// the verdict re-read from the shared state, for every group, once no more events are awaited
+				final++
+				r.Check("GetSCTs:final-verdict-after-all-races", sel != nil && !reaches(mu.Block(), sel.Block()), r.Where(mu), "the groups are judged on the final state after the last race has reported")
 			case r.D.D(mu.Value) == "false" && glob("rangeval(p4).Name", r.D.D(mu.Key)):
 				preset++
 				r.Check("GetSCTs:preset-before-listening", sel != nil && mu.Block().Dominates(sel.Block()) || sel != nil && c17LoopBefore(mu.Block(), sel.Block()), r.Where(mu), "every group is entered as 'not complete' before the first event is awaited")
@@ -299,6 +347,12 @@ func c17Completeness(r *Run) {
 		})
 		r.Check("GetSCTs:preset-all-groups-false", preset == 1, r.FnPos(fn), fmt.Sprintf("%d loops preset groupComplete[g.Name] = false over the policy's groups (a group that never reports must count as failed)", preset))
 		r.Check("GetSCTs:records-outcomes", recorded == 1, r.FnPos(fn), fmt.Sprintf("%d sites record a race's outcome", recorded))
+		// A race can end while a request that counts towards its group is still in flight (its goroutine
+		// returns at once when another race has already asked that log): its own verdict may be stale, so
+		// the verdict of the normal exit has to be taken from the shared state after all races have ended.
+		if c17RaceEndsOnDuplicate(r) {
+			r.Check("GetSCTs:final-verdict-from-state", final == 1, r.FnPos(fn), fmt.Sprintf("a race may report before a log asked by another race has answered; %d re-evaluations of the groups on the final state before the normal exit", final))
+		}
 		// one race per group, each reporting its own result
 		if clo := r.Fn("submission.GetSCTs$1"); clo != nil {
 			if c := r.OneCall(clo, "GetSCTs:race", "submission.groupRace"); c != nil {
